@@ -138,6 +138,19 @@ func c12Scenario(sp c12Spec, jsr, serve bool, bound int) e3Scenario {
 			if x.Deadlock {
 				return nil
 			}
+			// final probes: when every thread has finished, each request is served once more; these
+			// operations follow all others, so they must be explained by the final registration
+			// state (an update that returned must not be lost). Requests whose own route function
+			// mutates the container are not repeated.
+			if !x.Deadlock && len(x.Panics) == 0 {
+				for ri := range w.reqs {
+					if _, self := sp.selfMut[ri]; self {
+						continue
+					}
+					ri := ri
+					record(1000, c12In{false, ri}, func() string { return c12Do(w.c, serve, w.reqs[ri]) })
+				}
+			}
 			if !porcupine.CheckOperations(model, ops) {
 				var hs []string
 				for _, o := range ops {
@@ -183,7 +196,7 @@ func c12Scenarios(tier string) []e3Scenario {
 	var out []e3Scenario
 	for _, sp := range c12Specs {
 		threads := len(sp.servers) + len(sp.mutators)
-		if tier != "thorough" && threads > 2 && sp.name != "two-removes" && sp.name != "two-adds" && sp.name != "unroute-two-servers" && sp.name != "add-from-a-route-function" && sp.name != "two-unroutes-of-the-only-route" {
+		if tier != "thorough" && threads > 2 && sp.name != "two-removes" && sp.name != "two-adds" && sp.name != "unroute-two-servers" && sp.name != "add-from-a-route-function" && sp.name != "two-unroutes-of-the-only-route" && sp.name != "route-vs-unroute" && sp.name != "two-routes" {
 			continue
 		}
 		for _, jsr := range []bool{false, true} {
@@ -215,6 +228,6 @@ func checkC12(run *h.Run) {
 		return "F18"
 	})
 	run.Cov["distinct_nontrivial"] = run.Cov["schedules"]
-	run.Cov["rule"] = "E3: all schedules of serving threads against mutating threads (Add, Remove, Route, RemoveRoute, a condition function that panics while the container lock is held, the OPTIONS filter walking the service list, a route function that itself adds a service) on the real instrumented package, both routers x both entry points, iterative preemption bounding (quick: 2 threads bound 4, two concurrent mutators + a server bound 2; thorough: 2 threads bound 10, 3 threads bound 4). Oracles on every execution: vector-clock happens-before race detection over every struct field and package variable access of the package, no panic, no deadlock, and linearizability (porcupine) of the call/return history against the real container replayed sequentially (status, route, Allow set), and requests to services and routes no mutation touches are answered as on the initial container."
+	run.Cov["rule"] = "E3: all schedules of serving threads against mutating threads (Add, Remove, Route, RemoveRoute, a condition function that panics while the container lock is held, the OPTIONS filter walking the service list, a route function that itself adds a service) on the real instrumented package, both routers x both entry points, iterative preemption bounding (quick: 2 threads bound 4, two concurrent mutators + a server bound 2; thorough: 2 threads bound 10, 3 threads bound 4). Oracles on every execution: vector-clock happens-before race detection over every struct field and package variable access of the package, no panic, no deadlock, and linearizability (porcupine) of the call/return history against the real container replayed sequentially (status, route, Allow set), and requests to services and routes no mutation touches are answered as on the initial container. When all threads have finished every request is served once more and appended to the history (an update that returned must not be lost)."
 	run.Assume = []string{"sequential consistency at synchronisation granularity; races are reported as violations outright", "field-granular race detection (element-level accesses are covered by the free-running -race pass only)", "net/http.ServeMux internals executed, not instrumented"}
 }
